@@ -1,5 +1,6 @@
-(* C02 -- lemmas *)
-From Coq Require Import NArith Arith Bool List Lia Permutation.
+(* C02 -- lemmas.  Part A: the pointer array (swap, relink, shuffle, reverse).  Part B: filters.  Part C: runAllTests.
+   Part D: the runner and run_meets_spec. *)
+From Coq Require Import NArith Arith Bool List Lia Permutation FinFun.
 From CppUVerif Require Import lib.Str C13_Model C13_Proofs C02_Model.
 Import ListNotations.
 
@@ -8,3 +9,372 @@ Proof.
   unfold registry_of. rewrite <- (app_nil_r (rev ts)). generalize (@nil test).
   induction ts as [|t ts IH]; intro acc; cbn; [reflexivity|]. rewrite IH. unfold add_test. rewrite <- app_assoc. reflexivity.
 Qed.
+
+(* ================================================================== Part A *)
+Section Array.
+Context {A : Type}.
+Implicit Types a b : list A.
+
+Lemma upd_length a : forall i v, length (upd a i v) = length a.
+Proof. induction a as [|x a IH]; intros [|i] v; cbn; try reflexivity. rewrite IH. reflexivity. Qed.
+
+Lemma nth_error_upd a : forall i v k, (i < length a)%nat ->
+  nth_error (upd a i v) k = if Nat.eqb k i then Some v else nth_error a k.
+Proof.
+  induction a as [|x a IH]; intros i v k H; cbn in H; [lia|].
+  destruct i as [|i]; destruct k as [|k]; cbn; try reflexivity.
+  apply IH. lia.
+Qed.
+
+Lemma nth_error_ext a : forall b, length a = length b ->
+  (forall k, (k < length a)%nat -> nth_error a k = nth_error b k) -> a = b.
+Proof.
+  induction a as [|x a IH]; intros [|y b] L H; cbn in L; try discriminate L; [reflexivity|].
+  assert (H0 := H 0%nat ltac:(cbn; lia)). cbn in H0. inversion H0; subst. f_equal.
+  apply IH; [lia|]. intros k Hk. apply (H (S k)). cbn. lia.
+Qed.
+
+Definition transp (i1 i2 k : nat) : nat := if Nat.eqb k i2 then i1 else if Nat.eqb k i1 then i2 else k.
+
+Lemma transp_inj i1 i2 : Injective (transp i1 i2).
+Proof.
+  intros x y. unfold transp.
+  destruct (Nat.eqb_spec x i2), (Nat.eqb_spec y i2), (Nat.eqb_spec x i1), (Nat.eqb_spec y i1); lia.
+Qed.
+Lemma transp_lt i1 i2 n k : (i1 < n)%nat -> (i2 < n)%nat -> (k < n)%nat -> (transp i1 i2 k < n)%nat.
+Proof. unfold transp. intros. destruct (Nat.eqb k i2), (Nat.eqb k i1); lia. Qed.
+
+Lemma swap_spec a i1 i2 : (i1 < length a)%nat -> (i2 < length a)%nat ->
+  exists a', swap a i1 i2 = Some a' /\ length a' = length a /\ forall k, nth_error a' k = nth_error a (transp i1 i2 k).
+Proof.
+  intros H1 H2. unfold swap.
+  destruct (nth_error a i2) as [e2|] eqn:E2; [|apply nth_error_None in E2; lia].
+  destruct (nth_error a i1) as [e1|] eqn:E1; [|apply nth_error_None in E1; lia].
+  eexists. split; [reflexivity|]. split; [rewrite !upd_length; reflexivity|].
+  intro k. rewrite nth_error_upd by (rewrite upd_length; assumption). rewrite nth_error_upd by assumption.
+  unfold transp. destruct (Nat.eqb_spec k i2); [subst; symmetry; assumption|].
+  destruct (Nat.eqb_spec k i1); [subst; symmetry; assumption|reflexivity].
+Qed.
+
+Lemma swap_none a i1 i2 : swap a i1 i2 = None -> (length a <= i1 \/ length a <= i2)%nat.
+Proof.
+  unfold swap. destruct (nth_error a i2) eqn:E2; [|intros _; right; apply nth_error_None; assumption].
+  destruct (nth_error a i1) eqn:E1; [discriminate|]. intros _. left. apply nth_error_None. assumption.
+Qed.
+
+Lemma swap_perm a i1 i2 a' : swap a i1 i2 = Some a' -> Permutation a' a /\ length a' = length a.
+Proof.
+  intro H. assert (B : (i1 < length a /\ i2 < length a)%nat).
+  { unfold swap in H. destruct (nth_error a i2) eqn:E2; [|discriminate]. destruct (nth_error a i1) eqn:E1; [|discriminate].
+    split; apply nth_error_Some; congruence. }
+  destruct B as [B1 B2]. destruct (swap_spec a i1 i2 B1 B2) as [a2 [E [L N]]]. rewrite H in E. inversion E; subst a2.
+  split; [|assumption]. apply Permutation_sym. apply Permutation_nth_error. split; [symmetry; assumption|].
+  exists (transp i1 i2). split; [apply transp_inj | exact N].
+Qed.
+
+(* ---------------- relinkTestsInOrder gives back the array's order *)
+Lemma skipn_cons_nth a : forall k t, nth_error a k = Some t -> skipn k a = t :: skipn (S k) a.
+Proof.
+  induction a as [|x a IH]; intros [|k] t H; cbn in *; try discriminate.
+  - inversion H; reflexivity.
+  - apply IH. assumption.
+Qed.
+
+Lemma relink_loop_ok a : forall n i, (i + n = length a)%nat ->
+  relink_loop n i (length a) a (skipn (length a - i) a) = Some a.
+Proof.
+  induction n as [|n IH]; intros i H; cbn.
+  - replace (length a - i)%nat with 0%nat by lia. reflexivity.
+  - destruct (nth_error a (length a - i - 1)) as [t|] eqn:E; [|apply nth_error_None in E; lia].
+    specialize (IH (S i) ltac:(lia)).
+    replace (length a - S i)%nat with (length a - i - 1)%nat in IH by lia.
+    rewrite (skipn_cons_nth a _ t E) in IH.
+    replace (S (length a - i - 1)) with (length a - i)%nat in IH by lia. exact IH.
+Qed.
+Lemma relink_ok a : relink a = Some a.
+Proof.
+  unfold relink. pose proof (relink_loop_ok a (length a) 0 ltac:(lia)) as H.
+  rewrite Nat.sub_0_r in H. rewrite skipn_all in H. exact H.
+Qed.
+
+(* ---------------- shuffle: in bounds and a permutation, for every stream *)
+Lemma shuffle_loop_ok : forall i rs a drawn, (i < length a)%nat ->
+  exists a' d, shuffle_loop i rs a drawn = Some (a', d) /\ Permutation a' a /\ length a' = length a
+               /\ length d = (length drawn + i)%nat.
+Proof.
+  induction i as [|i IH]; intros rs a drawn H; cbn [shuffle_loop].
+  - exists a, (rev drawn). repeat split; [reflexivity | rewrite rev_length; lia].
+  - destruct (next_rand rs) as [r rs'].
+    set (j := N.to_nat (r mod N.of_nat (S i + 1))).
+    assert (Hj : (j < length a)%nat).
+    { subst j. assert (r mod N.of_nat (S i + 1) < N.of_nat (S i + 1))%N by (apply N.mod_lt; lia). lia. }
+    destruct (swap_spec a (S i) j H Hj) as [a1 [E [L _]]]. rewrite E.
+    destruct (swap_perm a (S i) j a1 E) as [P1 _].
+    destruct (IH rs' a1 (r :: drawn) ltac:(lia)) as [a' [d [E' [P' [L' D']]]]].
+    exists a', d. split; [exact E'|]. split; [eapply Permutation_trans; eassumption|]. split; [lia|]. cbn in D'. lia.
+Qed.
+
+Lemma shuffle_ok seed rs a : exists l seeds drawn, shuffle seed rs a = Some (l, seeds, drawn) /\ Permutation l a
+  /\ length drawn = (length a - 1)%nat.
+Proof.
+  unfold shuffle. destruct (length a) as [|k] eqn:L.
+  - exists a, [], []. repeat split. apply Permutation_refl.
+  - destruct (shuffle_loop_ok k rs a [] ltac:(lia)) as [a' [d [E [P [L' D]]]]]. rewrite E. rewrite relink_ok.
+    exists a', [(seed mod UINT_MOD)%N], d. repeat split; [assumption|]. cbn in D. lia.
+Qed.
+
+(* ---------------- reverse = rev *)
+Lemma nth_error_rev a : forall k, (k < length a)%nat -> nth_error (rev a) k = nth_error a (length a - 1 - k).
+Proof.
+  induction a as [|x a IH]; intros k H; cbn in H; [lia|]. cbn [rev length].
+  destruct (Nat.eq_dec k (length a)) as [->|N].
+  - rewrite nth_error_app2 by (rewrite rev_length; lia). rewrite rev_length.
+    replace (length a - length a)%nat with 0%nat by lia. replace (S (length a) - 1 - length a)%nat with 0%nat by lia. reflexivity.
+  - rewrite nth_error_app1 by (rewrite rev_length; lia). rewrite IH by lia.
+    replace (S (length a) - 1 - k)%nat with (S (length a - 1 - k)) by lia. reflexivity.
+Qed.
+
+Definition rev_upto (a : list A) (i : nat) (b : list A) : Prop :=
+  length b = length a /\
+  forall k, (k < length a)%nat ->
+    nth_error b k = if (Nat.ltb k i || Nat.leb (length a - i) k) then nth_error a (length a - 1 - k) else nth_error a k.
+
+Lemma reverse_loop_ok a : forall n i b, (2 * (i + n) <= length a)%nat -> rev_upto a i b ->
+  exists b', reverse_loop n i (length a) b = Some b' /\ rev_upto a (i + n) b'.
+Proof.
+  induction n as [|n IH]; intros i b H [L R]; cbn [reverse_loop].
+  - exists b. split; [reflexivity|]. rewrite Nat.add_0_r. split; assumption.
+  - destruct (swap_spec b i (length a - i - 1) ltac:(lia) ltac:(lia)) as [b1 [E [L1 N1]]]. rewrite E.
+    destruct (IH (S i) b1 ltac:(lia)) as [b' [E' R']].
+    + split; [lia|]. intros k Hk. rewrite N1. unfold transp.
+      destruct (Nat.eqb_spec k (length a - i - 1)).
+      * subst k. rewrite R by lia.
+        replace (Nat.ltb i i || Nat.leb (length a - i) i) with false
+          by (symmetry; apply orb_false_iff; split; [apply Nat.ltb_ge; lia | apply Nat.leb_gt; lia]).
+        replace (Nat.ltb (length a - i - 1) (S i) || Nat.leb (length a - S i) (length a - i - 1)) with true
+          by (symmetry; apply orb_true_iff; right; apply Nat.leb_le; lia).
+        f_equal. lia.
+      * destruct (Nat.eqb_spec k i).
+        -- subst k. rewrite R by lia.
+           replace (Nat.ltb (length a - i - 1) i || Nat.leb (length a - i) (length a - i - 1)) with false
+             by (symmetry; apply orb_false_iff; split; [apply Nat.ltb_ge; lia | apply Nat.leb_gt; lia]).
+           replace (Nat.ltb i (S i) || Nat.leb (length a - S i) i) with true
+             by (symmetry; apply orb_true_iff; left; apply Nat.ltb_lt; lia).
+           f_equal. lia.
+        -- rewrite R by lia.
+           replace (Nat.ltb k (S i) || Nat.leb (length a - S i) k) with (Nat.ltb k i || Nat.leb (length a - i) k); [reflexivity|].
+           destruct (Nat.ltb_spec k i), (Nat.ltb_spec k (S i)), (Nat.leb_spec (length a - i) k), (Nat.leb_spec (length a - S i) k);
+             cbn; try reflexivity; lia.
+    + exists b'. split; [exact E'|]. replace (i + S n)%nat with (S i + n)%nat by lia. exact R'.
+Qed.
+
+Lemma div2_bounds n : (2 * Nat.div2 n <= n <= 2 * Nat.div2 n + 1)%nat.
+Proof. pose proof (Nat.div2_odd n) as H. destruct (Nat.odd n); cbn in H; lia. Qed.
+
+Lemma reverse_ok a : reverse a = Some (rev a).
+Proof.
+  unfold reverse. destruct (length a) as [|c] eqn:L.
+  - destruct a; [reflexivity | discriminate L].
+  - rewrite <- L. pose proof (div2_bounds (length a)) as D.
+    destruct (reverse_loop_ok a (Nat.div2 (length a)) 0 a ltac:(lia)) as [b' [E [Lb R]]].
+    + split; [reflexivity|]. intros k Hk.
+      replace (Nat.ltb k 0 || Nat.leb (length a - 0) k) with false; [reflexivity|].
+      symmetry. apply orb_false_iff. split; [apply Nat.ltb_ge; lia | apply Nat.leb_gt; lia].
+    + rewrite E. rewrite relink_ok. f_equal. apply nth_error_ext; [rewrite rev_length; assumption|].
+      intros k Hk. rewrite Lb in Hk. rewrite R by assumption. rewrite nth_error_rev by assumption. cbn [Nat.add].
+      destruct (Nat.ltb_spec k (Nat.div2 (length a))); cbn [orb]; [reflexivity|].
+      destruct (Nat.leb_spec (length a - Nat.div2 (length a)) k); [reflexivity|].
+      f_equal. lia.
+Qed.
+End Array.
+
+(* ================================================================== Part B: filters *)
+Local Open Scope N_scope.
+
+Lemma nonul_NN x : nonul x = true -> NN x.
+Proof.
+  unfold nonul, NN. rewrite forallb_forall, Forall_forall. intros H c Hc. specialize (H c Hc).
+  apply andb_true_iff in H. destruct H as [H _]. apply negb_true_iff in H. apply N.eqb_neq in H. exact H.
+Qed.
+
+Lemma sstr_contains_ok a b : nonul a = true -> nonul b = true -> sstr_contains a b = contains a b.
+Proof.
+  intros Ha Hb. unfold sstr_contains, cs. rewrite (contains_ok a b [] [] (nonul_NN _ Ha) (nonul_NN _ Hb)). reflexivity.
+Qed.
+Lemma sstr_equal_ok a b : nonul a = true -> nonul b = true -> sstr_equal a b = bytes_eqb a b.
+Proof.
+  intros Ha Hb. unfold sstr_equal, cs. rewrite (equal_ok a b [] [] (nonul_NN _ Ha) (nonul_NN _ Hb)). reflexivity.
+Qed.
+
+Lemma filter_match_accepts f x : filter_ok f = true -> nonul x = true -> filter_match f x = accepts f x.
+Proof.
+  intros Hf Hx. unfold filter_match, accepts, filter_ok in *. cbv zeta.
+  destruct (f_strict f).
+  - rewrite (sstr_equal_ok x (f_pat f) Hx Hf). destruct (f_invert f), (bytes_eqb x (f_pat f)); reflexivity.
+  - rewrite (sstr_contains_ok x (f_pat f) Hx Hf). destruct (f_invert f), (contains x (f_pat f)); reflexivity.
+Qed.
+
+Lemma match_loop_existsb fs x : forallb filter_ok fs = true -> nonul x = true ->
+  match_loop x fs = existsb (fun f => accepts f x) fs.
+Proof.
+  intros Hf Hx. induction fs as [|f fs IH]; cbn; [reflexivity|]. cbn in Hf. apply andb_true_iff in Hf. destruct Hf as [H1 H2].
+  rewrite filter_match_accepts by assumption. rewrite IH by assumption. destruct (accepts f x); reflexivity.
+Qed.
+Lemma shell_match_accepted fs x : forallb filter_ok fs = true -> nonul x = true -> shell_match x fs = accepted fs x.
+Proof.
+  intros Hf Hx. unfold shell_match, accepted. destruct fs as [|f fs]; [reflexivity|]. apply match_loop_existsb; assumption.
+Qed.
+
+Definition filters_ok (s : scenario) : Prop := forallb filter_ok (s_gf s) = true /\ forallb filter_ok (s_nf s) = true.
+
+Lemma should_run_selected s t : filters_ok s -> test_ok t = true -> should_run (s_gf s) (s_nf s) t = selected s t.
+Proof.
+  intros [Hg Hn] Ht. unfold test_ok in Ht. apply andb_true_iff in Ht. destruct Ht as [H1 H2].
+  unfold should_run, selected. rewrite !shell_match_accepted by assumption. reflexivity.
+Qed.
+
+(* the declarative reading of a filter *)
+Definition Base (f : tfilter) (x : list N) : Prop :=
+  if f_strict f then x = f_pat f else exists pre post, x = pre ++ f_pat f ++ post.
+Definition Accepts (f : tfilter) (x : list N) : Prop := if f_invert f then ~ Base f x else Base f x.
+Definition Accepted (fs : list tfilter) (x : list N) : Prop := fs = [] \/ exists f, In f fs /\ Accepts f x.
+
+Lemma accepts_Accepts f x : accepts f x = true <-> Accepts f x.
+Proof.
+  unfold accepts, Accepts, Base. destruct (f_invert f), (f_strict f).
+  - destruct (bytes_eqb x (f_pat f)) eqn:E; cbn.
+    + apply bytes_eqb_eq in E. split; intro H; [discriminate H | contradiction].
+    + apply bytes_eqb_neq in E. split; intro; [assumption | reflexivity].
+  - destruct (contains x (f_pat f)) eqn:E; cbn.
+    + split; intro H; [discriminate H|]. exfalso. apply H. apply contains_spec. assumption.
+    + split; intro H; [|reflexivity]. intro C. apply contains_spec in C. congruence.
+  - destruct (bytes_eqb x (f_pat f)) eqn:E; cbn.
+    + apply bytes_eqb_eq in E. split; intro; [assumption | reflexivity].
+    + apply bytes_eqb_neq in E. split; intro H; [discriminate H | contradiction].
+  - destruct (contains x (f_pat f)) eqn:E; cbn.
+    + split; intro; [apply contains_spec; assumption | reflexivity].
+    + split; intro H; [discriminate H|]. apply contains_spec in H. congruence.
+Qed.
+Lemma accepted_Accepted fs x : accepted fs x = true <-> Accepted fs x.
+Proof.
+  unfold accepted, Accepted. destruct fs as [|f fs].
+  - split; [left; reflexivity | reflexivity].
+  - rewrite existsb_exists. split.
+    + intros [g [Hi Ha]]. right. exists g. split; [assumption | apply accepts_Accepts; assumption].
+    + intros [H|[g [Hi Ha]]]; [discriminate H|]. exists g. split; [assumption | apply accepts_Accepts; assumption].
+Qed.
+
+Lemma selection_iff gf nf t :
+  forallb filter_ok gf = true -> forallb filter_ok nf = true -> test_ok t = true ->
+  (should_run gf nf t = true <-> Accepted gf (t_group t) /\ Accepted nf (t_name t)).
+Proof.
+  intros Hg Hn Ht. unfold test_ok in Ht. apply andb_true_iff in Ht. destruct Ht as [H1 H2].
+  unfold should_run. rewrite !shell_match_accepted by assumption. rewrite andb_true_iff, !accepted_Accepted. reflexivity.
+Qed.
+
+(* ================================================================== Part C: runAllTests *)
+Lemma count_if_cons {A} (p : A -> bool) x l : count_if p (x :: l) = b2n (p x) + count_if p l.
+Proof. unfold count_if. cbn. destruct (p x); cbn [b2n length]; lia. Qed.
+Lemma count_if_nil {A} (p : A -> bool) : count_if p [] = 0.
+Proof. reflexivity. Qed.
+Lemma count_if_app {A} (p : A -> bool) a b : count_if p (a ++ b) = count_if p a + count_if p b.
+Proof. unfold count_if. rewrite filter_app, app_length. lia. Qed.
+Lemma count_if_ext {A} (p q : A -> bool) l : (forall x, In x l -> p x = q x) -> count_if p l = count_if q l.
+Proof.
+  induction l as [|x l IH]; intro H; [reflexivity|]. rewrite !count_if_cons. rewrite (H x (or_introl eq_refl)).
+  rewrite IH; [reflexivity|]. intros y Hy. apply H. right. assumption.
+Qed.
+Lemma count_if_perm {A} (p : A -> bool) l l' : Permutation l l' -> count_if p l = count_if p l'.
+Proof.
+  induction 1; rewrite ?count_if_cons; lia.
+Qed.
+Lemma count_if_map {A B} (f : A -> B) (p : B -> bool) l : count_if p (map f l) = count_if (fun x => p (f x)) l.
+Proof. induction l as [|x l IH]; [reflexivity|]. cbn [map]. rewrite !count_if_cons, IH. reflexivity. Qed.
+Lemma count_if_le {A} (p : A -> bool) l : count_if p l <= N.of_nat (length l).
+Proof. induction l as [|x l IH]; [cbn; lia|]. rewrite count_if_cons. cbn [length]. destruct (p x); cbn [b2n]; lia. Qed.
+
+Section RunLoop.
+Variables (gf nf : list tfilter) (ri : bool).
+Let sr := should_run gf nf.
+Definition m_ign (t : test) : bool := t_ignored t && negb ri.
+Definition m_exec (t : test) : bool := should_run gf nf t && negb (m_ign t).
+Definition m_cign (t : test) : bool := should_run gf nf t && m_ign t.
+
+Definition test_events (t : test) : list event :=
+  if should_run gf nf t then ETestStarted (t_id t) :: (if m_ign t then [] else [EBody (t_id t)]) ++ [ETestEnded] else [].
+Fixpoint events_of (l : list test) (gs : bool) : list event :=
+  match l with
+  | [] => []
+  | t :: rest => (if gs then [EGroupStarted (t_id t)] else []) ++ test_events t
+                 ++ (if end_of_group t rest then [EGroupEnded] else []) ++ events_of rest (end_of_group t rest)
+  end.
+Definition step_counters (k : counters) (t : test) : counters :=
+  let k1 := count_test k in
+  if should_run gf nf t then (if m_ign t then count_ignored k1 else count_run k1) else count_filtered k1.
+
+Lemma run_loop_split : forall l gs k, run_loop gf nf ri l gs k = (events_of l gs, fold_left step_counters l k).
+Proof.
+  induction l as [|t rest IH]; intros gs k; [reflexivity|]. cbn [run_loop events_of fold_left].
+  unfold test_events, step_counters, run_one_test, m_ign.
+  destruct (should_run gf nf t); [destruct (t_ignored t && negb ri)|]; cbv iota zeta beta; rewrite IH; reflexivity.
+Qed.
+
+Lemma fold_counters : forall l k,
+  let k' := fold_left step_counters l k in
+  c_tests k' = c_tests k + N.of_nat (length l) /\ c_run k' = c_run k + count_if m_exec l
+  /\ c_ign k' = c_ign k + count_if m_cign l /\ c_filt k' = c_filt k + count_if (fun t => negb (should_run gf nf t)) l.
+Proof.
+  induction l as [|t l IH]; intro k; cbn zeta.
+  - cbn [fold_left length]. rewrite !count_if_nil. cbn. lia.
+  - cbn [fold_left]. specialize (IH (step_counters k t)). cbn zeta in IH. destruct IH as [I1 [I2 [I3 I4]]].
+    rewrite I1, I2, I3, I4. rewrite !count_if_cons. unfold step_counters, m_exec, m_cign.
+    destruct (should_run gf nf t); [destruct (m_ign t)|]; cbn; lia.
+Qed.
+
+Lemma occ_app e a b : occurrences e (a ++ b) = occurrences e a + occurrences e b.
+Proof. apply count_if_app. Qed.
+
+Lemma occ_started i : forall l gs,
+  occurrences (ETestStarted i) (events_of l gs) = count_if (fun t => Nat.eqb i (t_id t) && should_run gf nf t) l.
+Proof.
+  induction l as [|t l IH]; intro gs; [reflexivity|]. cbn [events_of]. rewrite !occ_app, IH, count_if_cons.
+  assert (E1 : occurrences (ETestStarted i) (if gs then [EGroupStarted (t_id t)] else []) = 0) by (destruct gs; reflexivity).
+  assert (E3 : occurrences (ETestStarted i) (if end_of_group t l then [EGroupEnded] else []) = 0)
+    by (destruct (end_of_group t l); reflexivity).
+  rewrite E1, E3. unfold test_events. destruct (should_run gf nf t); [|rewrite andb_false_r; reflexivity].
+  rewrite andb_true_r. unfold occurrences. rewrite count_if_cons, count_if_app. cbn [ev_eqb].
+  assert (E2 : count_if (ev_eqb (ETestStarted i)) (if m_ign t then [] else [EBody (t_id t)]) = 0) by (destruct (m_ign t); reflexivity).
+  rewrite E2. change (count_if (ev_eqb (ETestStarted i)) [ETestEnded]) with 0. lia.
+Qed.
+
+Lemma occ_body i : forall l gs,
+  occurrences (EBody i) (events_of l gs) = count_if (fun t => Nat.eqb i (t_id t) && m_exec t) l.
+Proof.
+  induction l as [|t l IH]; intro gs; [reflexivity|]. cbn [events_of]. rewrite !occ_app, IH, count_if_cons.
+  assert (E1 : occurrences (EBody i) (if gs then [EGroupStarted (t_id t)] else []) = 0) by (destruct gs; reflexivity).
+  assert (E3 : occurrences (EBody i) (if end_of_group t l then [EGroupEnded] else []) = 0)
+    by (destruct (end_of_group t l); reflexivity).
+  rewrite E1, E3. unfold test_events, m_exec. destruct (should_run gf nf t); [|rewrite andb_false_r; reflexivity].
+  cbn [andb]. unfold occurrences. rewrite count_if_cons, count_if_app. cbn [ev_eqb].
+  change (count_if (ev_eqb (EBody i)) [ETestEnded]) with 0.
+  destruct (m_ign t); cbn [negb]; [rewrite andb_false_r; reflexivity|]. rewrite andb_true_r.
+  rewrite count_if_cons, count_if_nil. cbn [ev_eqb b2n]. lia.
+Qed.
+
+Lemma balanced_events n : forall l gs rest,
+  Forall (fun t => (t_id t < n)%nat) l -> (l = [] -> gs = true) ->
+  balanced_from n (if gs then WOut else WGroup) (events_of l gs ++ rest) = balanced_from n WOut rest.
+Proof.
+  induction l as [|t l IH]; intros gs rest F G.
+  - rewrite (G eq_refl). reflexivity.
+  - inversion F as [|? ? Ht F']; subst. apply Nat.ltb_lt in Ht.
+    assert (G' : l = [] -> end_of_group t l = true) by (intros ->; reflexivity).
+    specialize (IH (end_of_group t l) rest F' G').
+    cbn [events_of]. rewrite <- !app_assoc.
+    assert (T : forall w, balanced_from n WGroup (test_events t ++ w) = balanced_from n WGroup w).
+    { intro w. unfold test_events. destruct (should_run gf nf t); [|reflexivity].
+      destruct (m_ign t); cbn; rewrite Ht; cbn; [reflexivity|]. rewrite Nat.eqb_refl. reflexivity. }
+    destruct gs; cbn [app balanced_from]; rewrite ?Ht; cbn [andb]; rewrite T;
+      (destruct (end_of_group t l); cbn [app balanced_from]; exact IH).
+Qed.
+End RunLoop.
